@@ -100,6 +100,19 @@ def earlier_connections():
 
 
 _EARLIER = None
+_HELD_ENDINGS = None
+
+
+def held_endings():
+    """earlier connections of the SAME object whose consumer left the loop at Ready / at a message and still references the
+    iterator: it is released only by the next connection's `events = ws.connect()` (simnet mechanism 'hold')"""
+    global _HELD_ENDINGS
+    if _HELD_ENDINGS is None:
+        from . import scen, ref6455
+        E = ref6455.encode_frame
+        _HELD_ENDINGS = [dict(cfg=simnet.default_cfg(), steps=[("data", 10, scen.HANDSHAKE + E(1, b"one") + E(2, b"two")), ("eof", 10)],
+                              app={at: [("abandon", "hold")]}, keys=[b"\x09\x09\x09\x09"] * 4, key16=scen.KEY16) for at in (2, 3, 4)]
+    return _HELD_ENDINGS
 
 
 def with_history(p):
@@ -136,7 +149,7 @@ def with_history(p):
     if h % 8 == 0:
         q["previously"] = [_EARLIER[(h // 8) % len(_EARLIER)]]
     else:
-        plain = [e for e in _EARLIER if "ws_kwargs" not in e]
+        plain = [e for e in _EARLIER if "ws_kwargs" not in e] + held_endings()
         q["previously_same"] = [plain[(h // 8) % len(plain)]]
     return q
 
